@@ -7,7 +7,7 @@ for f in sorted(glob.glob('/verif/seeded/*/meta.json')):
     rows.append(m)
 out = []
 out.append("## I.6 Seeded changes: which check catches which\n")
-out.append("Forty property-breaking changes were written by fresh sub-agents that saw only the text of one\nproperty and a scratch worktree of `/repo` (nothing from `/verif`). Each compiles, keeps the repository's own\nsuite green and comes with a demonstration that fails with the change and passes without it; all of\nthat was re-confirmed here with `tools/seedtest.sh` (apply to `/repo`, run suite + demonstration + checks,\nrestore `/repo`). They are kept under `/verif/seeded/<id>/` (`patch.diff`, demonstration, `notes.md`,\n`meta.json`). **Every one of the 40 is reported by the quick tier of the check of the property it breaks**;\n12 were missed at first and led to the strengthening noted in the last column (the alphabets in I §4\nare the strengthened ones). `detected by` lists the checks that were run against the change and reported it\n(the full 40 x 20 matrix was not run).\n")
+out.append("One hundred property-breaking changes were written by fresh sub-agents that saw only the text of one\nproperty and a scratch worktree of `/repo` (nothing from `/verif`): two per property in a first round, three per\nproperty in a second round in which the agents were also given the first round's ideas as an exclusion list and\nasked for changes that need something specific to manifest. Each compiles, keeps the repository's own\nsuite green and comes with a demonstration that fails with the change and passes without it; all of\nthat was re-confirmed here with `tools/seedtest.sh` (apply to `/repo` or to a scratch clone, run suite +\ndemonstration + checks, restore). They are kept under `/verif/seeded/<id>/` (`patch.diff`, demonstration,\n`notes.md`, `meta.json`).\n\n**Result.** Round 1: 28 of 40 reported at once, 12 after strengthening. Round 2: 30 of 60 reported at once\n(by the check of the property the agent was given), 30 after strengthening — the misses and what they led to\nare in the last column. After strengthening, every one of the 100 is reported by the quick tier of a check;\n97 by the check of the property the agent was given, 3 only by a neighbouring check because the change lies\noutside the property's quantification: C01-4 and C05-4 are data races between concurrent runs / parses (decided\nby C16), C11-5 is a leak between runs (decided by C15 and by C03's canary). `detected by` lists the checks that\nwere run against the change and reported it (the full 100 x 20 matrix was not run).\n\nWhat the misses had in common, and what was generalised from them: (1) state left behind by one run or load\nand consumed by the next *operation of any kind* — hence canary runs with no load in between (C03), later-load\ninvariance (C09, C13), re-check under another table (C08), second run of a loaded script (C04, C19), fresh-process\nbaselines (C15); (2) inputs outside the comfortable alphabet — strings that are not valid UTF-8, CR and CRLF,\nnon-ASCII text before a position, messages containing `%`, symlinks and broken bystanders in a workspace;\n(3) near-miss values — the equality matrix, one-digit hours and negative zones; (4) lock discipline — a write\nunder a read lock is a shared write.\n")
 out.append("| id | change | needs to manifest | detected by | history |")
 out.append("|---|---|---|---|---|")
 for m in rows:
